@@ -24,7 +24,15 @@ func (e *Exec) call(fr *Frame, st *State, ins ssa.Instruction, cc *ssa.CallCommo
 		return e.builtin(fr, st, ins, b, cc, args)
 	}
 	if cc.IsInvoke() {
-		return e.unknownCall(fr, st, ins, "interface method "+cc.Method.Name(), rtyp, args)
+		v := e.unknownCall(fr, st, ins, "interface method "+cc.Method.Name(), rtyp, args)
+		// io.Reader / io.Writer: 0 <= n <= len(p) is part of the documented interface contract
+		if n := cc.Method.Name(); (n == "Read" || n == "Write") && len(args) == 1 && len(v.Tup) == 2 && args[0].T != nil {
+			if sl, ok := cc.Args[0].Type().Underlying().(*types.Slice); ok && isByteT(sl.Elem()) && v.Tup[0].T != nil && v.Tup[0].T.sort == "Int" {
+				e.assume(st, e.c.And(e.c.Le(e.c.Int(0), v.Tup[0].T), e.c.Le(v.Tup[0].T, e.tm.SliceLen(args[0].T))))
+				e.assumed["interface methods Read/Write([]byte) (int, error) return 0 <= n <= len(p) (io.Reader / io.Writer contract)"] = true
+			}
+		}
+		return v
 	}
 	var callee *ssa.Function
 	var bindings []Val
@@ -594,6 +602,13 @@ func (e *Exec) evalClauseAt(fr *Frame, cl Clause, st *State, results []Val) *Ter
 			}
 			args = append(args, results[p.Index])
 			oldArgs = append(oldArgs, results[p.Index])
+		case pkCallArg:
+			vs, ok := fr.callArgs[fmt.Sprintf("%s:%d", p.File, p.Off)]
+			if !ok || p.Index >= len(vs) {
+				e.fail("clause %s: %s - that call was not executed before the clause", cl.Label, p.Name)
+			}
+			args = append(args, vs[p.Index])
+			oldArgs = append(oldArgs, vs[p.Index])
 		case pkCallRes:
 			v, ok := fr.callRes[fmt.Sprintf("%s:%d", p.File, p.Off)]
 			if !ok {
@@ -1325,4 +1340,10 @@ func isContextCancel(v ssa.Value, depth int) bool {
 		return stores > 0
 	}
 	return false
+}
+
+
+func isByteT(t types.Type) bool {
+	b, ok := t.Underlying().(*types.Basic)
+	return ok && b.Kind() == types.Uint8
 }
